@@ -69,6 +69,7 @@ Proof.
   - pose proof (feed_no_ra c m s audio pts dts boundary now pk) as H.
     destruct (feed _ _ _ _ _ _ _ _ _) as [m1 o]. exact H.
   - pose proof (close_no_ra c m s true) as H. destruct (close_fragment _ _ _ _) as [m1 o]. exact H.
+  - unfold start_mux. destruct (fs_lookup PLive s); reflexivity.
 Qed.
 
 Lemma step_dispose_none c m s : fst (step c (mkworld (Some m) s) EvDispose) = None.
@@ -115,7 +116,7 @@ Proof.
     destruct e; cbn [srv_exec srv_step sv_group lower_from to_mux].
     + cbn [run_from live_mux sv_group]. destruct (step c (mkworld None s) EvNew) as [mx o] eqn:E.
       cbn [map snd concat]. rewrite IH by exact Hok.
-      assert (Hx : exists m1, mx = Some m1) by (cbn in E; injection E as <- _; eauto).
+      assert (Hx : exists m1, mx = Some m1) by (cbn in E; destruct (start_mux c s); injection E as <- _; eauto).
       destruct Hx as [m1 ->]. reflexivity.
     + cbn [map snd concat app]. rewrite IH by exact Hok. reflexivity.
     + cbn [map snd concat app]. rewrite IH by exact Hok. reflexivity.
@@ -131,7 +132,7 @@ Proof.
     destruct e; cbn [srv_exec srv_step sv_group lower_from to_mux].
     + cbn [run_from live_mux sv_group]. destruct (step c (mkworld None s) EvNew) as [mx o] eqn:E.
       cbn [map snd concat]. rewrite IH by exact Hok.
-      assert (Hx : exists m1, mx = Some m1) by (cbn in E; injection E as <- _; eauto).
+      assert (Hx : exists m1, mx = Some m1) by (cbn in E; destruct (start_mux c s); injection E as <- _; eauto).
       destruct Hx as [m1 ->]. reflexivity.
     + cbn [map snd concat app]. rewrite IH by exact Hok. reflexivity.
     + cbn [map snd concat app]. rewrite IH by exact Hok. reflexivity.
